@@ -16,10 +16,13 @@ open GluonModel.Infix
 def AllDefined (rest : List (Op × Nat)) : Prop := ∀ p ∈ rest, p.1.info ≠ none
 
 /-- Soundness: a successful re-parse keeps the operands and operators in their source order
-    and groups them as the fixities dictate. -/
+    and groups them as the fixities dictate.  (`AllDefined` is needed: the one-operator chain
+    `0 u 1` with `u` undefined is never looked up and re-parses to `node 0 u 1`, which is not
+    `WF`.) -/
 theorem reparse_sound (first : Nat) (rest : List (Op × Nat)) (t : Tree)
+    (hd : AllDefined rest)
     (h : reparse first rest = .ok t) : flatten t = (first, rest) ∧ WF t :=
-  Proofs.reparse_sound first rest t h
+  Proofs.reparse_sound first rest t hd h
 
 /-- Completeness: whenever *some* grouping of the chain respects the fixities, `reparse`
     finds exactly that grouping. -/
